@@ -151,6 +151,75 @@ def Pc.rsec : Pc K V → Option Nat
   | .gCheck e _ | .gCopy e _ | .gUnlockHit e _ _ | .gUnlockMiss e _ => some e
   | _ => none
 
+/-- the statements that write / read the data fields `k`, `v` of an entry -/
+def Pc.writes : Pc K V → Option Nat
+  | .sFillK e .. | .sFillV e .. | .rWipeK e | .rWipeV e => some e
+  | _ => none
+
+def Pc.reads : Pc K V → Option Nat
+  | .gCheck e _ | .gCopy e _ => some e
+  | _ => none
+
+/-! ### the faithful layer: otter as a map with a deletion queue, `sync.Pool` as a list
+
+  The same statements, but `newCacheEntry` only returns a pooled or a never-used object,
+  `backend.Get` only returns what the map holds, `Set` hands the replaced entry to the deletion
+  listener, eviction / expiry (`evict`) is a step of the backend, and the listener runs exactly on
+  entries that left the map. Every faithful step is an adversarial step (or leaves the core state
+  unchanged) — `Props/C07.faithful_refines` — so everything proved about `Step` holds here. -/
+
+structure Backend (K : Type) where
+  map : K → Option Nat
+  pend : List Nat          -- removed from the map, listener not yet started
+  pool : List Nat          -- cacheEntryPool
+  next : Nat               -- objects ≥ next were never allocated
+
+structure FState (K V : Type) where
+  core : State K V
+  be : Backend K
+
+def updKey [DecidableEq K] {α : Type} (f : K → α) (k : K) (x : α) : K → α := fun j => if j = k then x else f j
+
+inductive FStep [Inhabited K] [DecidableEq K] : FState K V → FState K V → Prop
+  /-- any statement that does not touch backend or pool -/
+  | local (c c' : State K V) (b : Backend K) : Step c c' →
+      (∀ t k v nx e, c.pc t = .sNew k v nx → c'.pc t ≠ .sLock e k v nx) →
+      (∀ t k e, c.pc t = .gLookup k → c'.pc t ≠ .gTry e k) →
+      (∀ t e, c.pc t = .idle → c'.pc t ≠ .rLock e) →
+      FStep ⟨c, b⟩ ⟨c', b⟩
+  | newPooled (c : State K V) (b : Backend K) (t k v nx) (e : Nat) (pre post : List Nat) :
+      c.pc t = .sNew k v nx → b.pool = pre ++ e :: post →
+      FStep ⟨c, b⟩ ⟨c.setPc t (.sLock e k v nx), { b with pool := pre ++ post }⟩
+  | newFresh (c : State K V) (b : Backend K) (t k v nx) :
+      c.pc t = .sNew k v nx →
+      FStep ⟨c, b⟩ ⟨c.setPc t (.sLock b.next k v nx), { b with next := b.next + 1 }⟩
+  | set (c : State K V) (b : Backend K) (t e k v) :
+      c.pc t = .sSet e k v false →
+      FStep ⟨c, b⟩ ⟨c.setPc t .idle,
+        { b with map := updKey b.map k (some e), pend := (b.map k).toList ++ b.pend }⟩
+  | setIfAbsent (c : State K V) (b : Backend K) (t e k v) :
+      c.pc t = .sSet e k v true →
+      FStep ⟨c, b⟩ ⟨c.setPc t .idle,
+        if (b.map k).isSome then b else { b with map := updKey b.map k (some e) }⟩
+  | lookupHit (c : State K V) (b : Backend K) (t k e) :
+      c.pc t = .gLookup k → b.map k = some e →
+      FStep ⟨c, b⟩ ⟨c.setPc t (.gTry e k), b⟩
+  | evict (c : State K V) (b : Backend K) (k : K) (e : Nat) : b.map k = some e →
+      FStep ⟨c, b⟩ ⟨c, { b with map := updKey b.map k none, pend := e :: b.pend }⟩
+  | listener (c : State K V) (b : Backend K) (t e) (pre post : List Nat) :
+      c.pc t = .idle → b.pend = pre ++ e :: post →
+      FStep ⟨c, b⟩ ⟨c.setPc t (.rLock e), { b with pend := pre ++ post }⟩
+  | put (c : State K V) (b : Backend K) (t e) : c.pc t = .rPut e →
+      FStep ⟨c, b⟩ ⟨c.setPc t .idle, { b with pool := e :: b.pool }⟩
+  | poolDrop (c : State K V) (b : Backend K) (pre post : List Nat) (e : Nat) :   -- GC empties sync.Pool
+      b.pool = pre ++ e :: post → FStep ⟨c, b⟩ ⟨c, { b with pool := pre ++ post }⟩
+
+def finit [Inhabited K] : FState K V := ⟨init, ⟨fun _ => none, [], [], 0⟩⟩
+
+inductive FReachable [Inhabited K] [DecidableEq K] : FState K V → Prop
+  | init : FReachable finit
+  | step {s s'} : FReachable s → FStep s s' → FReachable s'
+
 /-! ## sequential layer: otter as a finite map, the entry pool as a free list -/
 
 structure Seq (K V : Type) where
